@@ -192,7 +192,7 @@ def isimip_var_like(var, nprs, dates, shift):
     raise KeyError(var)
 
 
-def factories(L, S):
+def factories(L, S, seed=0):
     """name -> (factory, needs_seed, data kind).  The eight debiasers with tas settings in running-window mode
     (CDFt / QDM: year windows 17/9 by default), CDFt / QDM with other year windows, ISIMIP month mode, every ISIMIP variable
     (thresholds: step 4 randomises, seeded; rsds: steps 1 / 8), the precipitation models, window-free mode, large samples."""
@@ -243,6 +243,48 @@ def factories(L, S):
                "QuantileDeltaMapping-pr", "ISIMIP-pr-seeded", "CDFt-pr", "LinearScaling-windowfree", "QuantileMapping-windowfree",
                "ScaledDistributionMapping-windowfree", "ECDFM-windowfree", "ISIMIP", "ISIMIP-rsds", "ISIMIP-hurs", "CDFt"):
         fs[nm + "-large"] = fs[nm]
+    # documented non-default options (drawn from the case's seed): the property is stated for every setting
+    orng = random.Random(seed)
+
+    def isimip_options(var, mode_kw):
+        opt = {}
+        if var in ("tas", "psl", "rlds") and orng.random() < 0.6:
+            opt["event_likelihood_adjustment"] = True
+        elif orng.random() < 0.3:
+            opt["event_likelihood_adjustment"] = True
+        for key, val, pr_ in (("nonparametric_qm", None, 0.3), ("detrending_with_significance_test", False, 0.3),
+                              ("trend_transfer_only_for_values_within_threshold", False, 0.3),
+                              ("bias_correct_frequencies_of_values_beyond_thresholds", False, 0.3),
+                              ("ks_test_for_goodness_of_cdf_fit", False, 0.4), ("mode_non_parametric_qm", "isimipv3.0", 0.3),
+                              ("ecdf_method", "step_function", 0.3), ("iecdf_method", orng.choice(["inverted_cdf", "hazen", "closest_observation"]), 0.3)):
+            if orng.random() < pr_:
+                opt[key] = val
+        if "nonparametric_qm" in opt:
+            opt["nonparametric_qm"] = var in ("tas", "psl", "rlds", "pr", "sfcWind", "tasrange")  # the opposite of the variable's default
+        return lambda: ISIMIP.from_variable(var, **mode_kw, **opt)
+
+    for var in ["tas", "psl", "pr"] + ISIMIP_VARS:
+        kind_ = {"tas": "tas", "pr": "pr"}.get(var, "isimip:" + var)
+        fs[f"ISIMIP-{var}-options"] = (isimip_options(var, kw), True, kind_)
+        fs[f"ISIMIP-{var}-options-months"] = (isimip_options(var, dict(running_window_mode=False)), True, kind_)
+    for var in ("tas", "psl"):
+        kind_ = {"tas": "tas"}.get(var, "isimip:" + var)
+        fs[f"ISIMIP-{var}-ela"] = (lambda var=var: ISIMIP.from_variable(var, event_likelihood_adjustment=True, **kw), True, kind_)
+        fs[f"ISIMIP-{var}-ela-months"] = (lambda var=var: ISIMIP.from_variable(var, event_likelihood_adjustment=True, running_window_mode=False), True, kind_)
+    qm_opt = dict(detrending=orng.choice(["additive", "multiplicative", "no_detrending"]), mapping_type=orng.choice(["parametric", "nonparametric"]))
+    fs["QuantileMapping-options"] = (lambda: QuantileMapping.from_variable("tas", **kw, **qm_opt), False, "tas")
+    cdft_opt = dict(delta_shift=orng.choice(["additive", "multiplicative", "no_shift"]),
+                    ecdf_method=orng.choice(["step_function", "linear_interpolation"]),
+                    iecdf_method=orng.choice(["inverted_cdf", "linear", "hazen", "closest_observation", "averaged_inverted_cdf"]))
+    fs["CDFt-options"] = (lambda: CDFt.from_variable("tas", **kw, **cdft_opt), False, "tas")
+    qdm_opt = dict(trend_preservation=orng.choice(["absolute", "relative"]), ecdf_method=orng.choice(["step_function", "linear_interpolation"]))
+    fs["QuantileDeltaMapping-options"] = (lambda: QuantileDeltaMapping.from_variable("tas", **kw, **qdm_opt), False, "tas")
+    fs["LinearScaling-multiplicative"] = (lambda: LinearScaling.from_variable("tas", delta_type="multiplicative", **kw), False, "tas")
+    from ibicus.debias import DeltaChange as _DC
+    fs["DeltaChange-multiplicative"] = (lambda: _DC.from_variable("tas", delta_type="multiplicative", **kw), False, "tas")
+    ecdfm_dist = orng.choice([scipy.stats.norm, scipy.stats.laplace, scipy.stats.norm])
+    ecdfm_thr = orng.choice([1e-10, 1e-3])
+    fs["ECDFM-options"] = (lambda: ECDFM.from_variable("tas", distribution=ecdfm_dist, cdf_threshold=ecdfm_thr, **kw), False, "tas")
     fs["CDFt-windowfree-large"] = (lambda: CDFt.from_variable("tas", **noyr), False, "tas")
     fs["QuantileDeltaMapping-windowfree-large"] = (lambda: QuantileDeltaMapping.from_variable("tas", **noyr), False, "tas")
     fs["QuantileMapping-nonparametric-windowfree-large"] = (lambda: QuantileMapping.from_variable("tas", mapping_type="nonparametric", **off), False, "tas")
@@ -285,14 +327,22 @@ LARGE = [("QuantileDeltaMapping-pr-windowfree-large", True), ("QuantileMapping-p
          ("ISIMIP-large", False), ("ISIMIP-rsds-large", False), ("ISIMIP-hurs-large", False), ("CDFt-large", False),
          ("CDFt-windowfree-large", False), ("QuantileDeltaMapping-windowfree-large", False),
          ("QuantileMapping-nonparametric-windowfree-large", False)]
+OPTIONS = ([f"ISIMIP-{v}-options{m}" for v in ["tas", "psl", "pr"] + ISIMIP_VARS for m in ("", "-months")]
+           + ["ISIMIP-tas-ela", "ISIMIP-psl-ela", "ISIMIP-tas-ela-months", "ISIMIP-psl-ela-months", "QuantileMapping-options", "CDFt-options",
+              "QuantileDeltaMapping-options", "LinearScaling-multiplicative", "DeltaChange-multiplicative", "ECDFM-options"])
 LARGE_THOROUGH = [("QuantileDeltaMapping-pr-large", True)]  # 60+ years with the default 91-day window: > 4000 wet values per window
 OUTLIER_OK = ("tas", "tas-trend", "isimip:psl", "isimip:rlds")
+
+
+def rank_based(name):
+    """configurations whose theorem carries a tie-free guard (`np.argsort` on ties is unspecified): SDM and ISIMIP (step 6, step 4)"""
+    return name.startswith(("ScaledDistributionMapping", "ISIMIP"))
 
 
 def data_kind(name):
     if name.endswith("-large"):
         name = name[:-6]
-    if name.startswith("ISIMIP-") and name.split("-")[1] in ISIMIP_VARS:
+    if name.startswith("ISIMIP-") and name.split("-")[1] in ISIMIP_VARS + ["psl"]:
         return "isimip:" + name.split("-")[1]
     if "-pr" in name:
         return "pr"
@@ -350,7 +400,7 @@ def gen_case(rng, name, tier, size_rank=None):
         cal1 = {"start": [y0 - 160, 1, 1], "n": 365 * ny + rng.randint(1, 30)}
         cal2 = {"start": [y0 - 80, 3, 1], "n": 365 * ny + rng.randint(1, 30)}
         X = {"start": [startX.year, startX.month, startX.day], "n": 365 * ny + rng.randint(0, 60)}
-    if name == "DeltaChange":
+    if name.startswith("DeltaChange"):
         spans = {"O": X, "H": cal1, "F": cal2}
     else:
         spans = {"O": cal1, "H": cal2, "F": X}
@@ -359,7 +409,7 @@ def gen_case(rng, name, tier, size_rank=None):
     # index set or the order of one series for another one of the same size is only visible then
     r = rng.random()
     equal = None
-    if name == "DeltaChange":
+    if name.startswith("DeltaChange"):
         equal = "OH" if r < 0.5 else ("OHF" if r < 0.6 else None)
     elif r < 0.45 and not no366:
         equal = rng.choice(["OH", "HF", "OHF", "OH", "HF"])
@@ -376,8 +426,20 @@ def gen_case(rng, name, tier, size_rank=None):
         for k in range(3):
             if kinds[k] in ("identity", "reverse"):
                 kinds[k] = rng.choice(["full", "full", "blockswap", "rotate"])
+    # partial time information: the time array of some series is omitted (the library then infers consecutive dates from a 1 January
+    # for THAT series only); such a series keeps its storage order, the others are re-ordered together with their dates
+    omit = ""
+    if not large and rng.random() < 0.2:
+        omit = rng.choice(["O", "H", "F", "OH", "HF", "OF", "O", "H"])
+        for k in omit:
+            kinds["OHF".index(k)] = "identity"
+        for k in "OHF":
+            if k not in omit and kinds["OHF".index(k)] in ("identity", "reverse"):
+                kinds["OHF".index(k)] = rng.choice(["full", "blockswap", "rotate"])
+    # tied values (data stored with a finite resolution) for every method that is not rank based: their theorems need no tie-freeness
+    rounded = (not rank_based(name)) and not outliers and rng.random() < 0.3
     return {"what": "oracle/" + name, "debiaser": name, "L": L, "S": S, "spans": spans, "np_seed": rng.randint(0, 2**31 - 1),
-            "perms": kinds, "equal": equal, "outliers": outliers, "no366": no366, "verif_seed": C.seed()}
+            "perms": kinds, "equal": equal, "outliers": outliers, "no366": no366, "omit": omit, "rounded": rounded, "verif_seed": C.seed()}
 
 
 def inject_outliers(nprs, x, spec, sd):
@@ -394,7 +456,7 @@ def build(case):
     nprs = np.random.RandomState(case["np_seed"])
     sp = case["spans"]
     d = {k: probes.dates_from(datetime.date(*sp[k]["start"]), sp[k]["n"]) for k in "OHF"}
-    mk, seeded, data = factories(case["L"], case["S"])[case["debiaser"]]
+    mk, seeded, data = factories(case["L"], case["S"], case["np_seed"])[case["debiaser"]]
     if data == "pr":
         o, h, f = pr_like(nprs, d["O"].size, 0.2), pr_like(nprs, d["H"].size, 0.3), pr_like(nprs, d["F"].size, 0.25)
         if not case["debiaser"].startswith(("Quantile", "ECDFM", "CDFt")):  # the cases of the earlier rounds keep their data
@@ -414,6 +476,14 @@ def build(case):
         f = inject_outliers(nprs, f, spec, sd)
         if spec["who"] == "OHF":
             o, h = inject_outliers(nprs, o, spec, sd), inject_outliers(nprs, h, spec, sd)
+    if case.get("rounded"):
+        # a DYADIC resolution (1/8 K; 2^-24 for precipitation): sums of such values are exact in floating point, so the means /
+        # shifts of the two runs are bit-identical and no comparison of a tied value with a knot of an empirical cdf (a genuine
+        # discontinuity of the exact map) can be flipped by summation-order noise
+        if data == "pr":  # dry days exactly zero
+            o, h, f = (np.where(x < PR_THR, 0.0, np.round(x * 2.0**24) / 2.0**24) for x in (o, h, f))
+        else:
+            o, h, f = (np.round(x * 8) / 8 for x in (o, h, f))
     pO, pH, pF = (make_perm(nprs, x.size, k) for x, k in zip((o, h, f), case["perms"]))
     for a, b in ((pO, pH), (pH, pF), (pO, pF)):  # equal-length series must not share one permutation
         if a.size == b.size and a.size > 2 and np.array_equal(a, b) and not np.array_equal(a, np.arange(a.size)):
@@ -424,8 +494,12 @@ def build(case):
 def run_case(case):
     """returns (status, detail): status in {"ok", "skip", "violation"}"""
     mk, seeded, (o, h, f, dO, dH, dF), (pO, pH, pF) = build(case)
-    if any(np.unique(x).size != x.size for x in (o, h, f)):
+    if rank_based(case["debiaser"]) and any(np.unique(x).size != x.size for x in (o, h, f)):
         return "skip", "ties in the generated data"
+    omit = case.get("omit") or ""
+
+    def times(tO, tH, tF):
+        return (None if "O" in omit else tO, None if "H" in omit else tH, None if "F" in omit else tF)
     opts = case_opts(case["debiaser"])
 
     def run(args):
@@ -438,15 +512,15 @@ def run_case(case):
             except Exception as ex:  # noqa: BLE001
                 return "error", type(ex).__name__ + ": " + str(ex)[:80]
 
-    k1, a = run((o, h, f, dO, dH, dF))
+    k1, a = run((o, h, f) + times(dO, dH, dF))
     variants = [(pO, pH, pF)]
     if case.get("outliers"):  # which storage orders expose a dependence on the order of tied intermediate values varies: try a second one
         nprs2 = np.random.RandomState(case["np_seed"] // 2 + 1)
-        variants.append((nprs2.permutation(o.size), nprs2.permutation(h.size), nprs2.permutation(f.size)))
+        variants.append(tuple(np.arange(x.size) if k in omit else nprs2.permutation(x.size) for x, k in zip((o, h, f), "OHF")))
     worst_dev = 0.0
     for nv, (pO, pH, pF) in enumerate(variants):
-        pOut = pO if case["debiaser"] == "DeltaChange" else pF
-        k2, b = run((o[pO], h[pH], f[pF], dO[pO], dH[pH], dF[pF]))
+        pOut = pO if case["debiaser"].startswith("DeltaChange") else pF
+        k2, b = run((o[pO], h[pH], f[pF]) + times(dO[pO], dH[pH], dF[pF]))
         if k1 == "error" or k2 == "error":
             if k1 == k2 and a.split(":")[0] == b.split(":")[0]:
                 return "skip", f"both runs raise {a.split(':')[0]}"
@@ -467,8 +541,8 @@ def run_case(case):
             bad &= f[pF] >= opts["thr"]
         if bad.any():
             i = int(np.where(bad)[0][0])
-            date = (dO[pO] if case["debiaser"] == "DeltaChange" else dF[pF])[i]
-            extra = "".join(f"; {k}={case[k]}" for k in ("outliers", "no366", "equal") if case.get(k))
+            date = (dO[pO] if case["debiaser"].startswith("DeltaChange") else dF[pF])[i]
+            extra = "".join(f"; {k}={case[k]}" for k in ("outliers", "no366", "equal", "omit", "rounded") if case.get(k))
             how = f"perms obs/cm_hist/cm_future = {case['perms']}" if nv == 0 else "second storage order: three full permutations"
             return "violation", (f"{int(bad.sum())} of {bad.size} time steps changed their debiased value when the dated series were re-ordered "
                                  f"({how}{extra}); first: {date} {want[i]!r} -> {b[i]!r} (tol {tol_i[i]:.2e})")
@@ -488,10 +562,10 @@ def oracle(rng, names, reps, tier, res, problems, size_ranks=None):
             status, detail = run_case(case)
             nontrivial = any(k != "identity" for k in case["perms"])
             if status == "ok":
-                for key in ("equal", "outliers", "no366"):
+                for key in ("equal", "outliers", "no366", "omit", "rounded"):
                     if case.get(key):
                         cnt = res.extra.setdefault("oracle_" + key + "_cases", {})
-                        tag = case[key] if key == "equal" else name.split("-")[0]
+                        tag = case[key] if key in ("equal", "omit") else name.split("-")[0]
                         cnt[tag] = cnt.get(tag, 0) + 1
                 if name.endswith("-large"):
                     cnt = res.extra.setdefault("oracle_large_cases", {})
@@ -612,6 +686,7 @@ def _run(tier, res, force_search=False):
     # every ISIMIP variable (running-window and month mode), the precipitation models
     oracle(rng, ISIMIP_ALL, (2 if tier == "quick" else 12) * boost, tier, res, problems)
     oracle(rng, PRECIP, (2 if tier == "quick" else 10) * boost, tier, res, problems)
+    oracle(rng, OPTIONS, (2 if tier == "quick" else 8) * boost, tier, res, problems)
     # large samples: > 4000 / > 10001 / > 20000 values per fitting sample
     if tier == "quick":
         oracle(rng, [n for n, exp in LARGE if exp], 1 * boost, tier, res, problems, size_ranks=[0])
